@@ -173,7 +173,7 @@ impl PropImpl for C12 {
         vec!["the debversion crate's ordering is cross-checked against the pool's known order in every case; a disagreement is reported as an infrastructure error, not as a violation".into()]
     }
     fn budget(&self, tier: Tier) -> Budget {
-        Budget { cases_per_lane: if tier == Tier::Quick { 2000 } else { 60_000 }, tape_max: 200, cpu_s: 10 }
+        Budget { cases_per_lane: if tier == Tier::Quick { 10000 } else { 60_000 }, tape_max: 200, cpu_s: 10 }
     }
     fn spaces(&self, _tier: Tier) -> Vec<Space> {
         vec![
